@@ -280,7 +280,8 @@ class WebSocket:  # pragma: no cover
         event = await self.asgi_receive()
         if event['type'] != 'websocket.receive':
             raise OSError()
-        return event.get('bytes') or event.get('text')
+        data = event.get('bytes')
+        return data if data is not None else event.get('text')
 
 
 _async = {
